@@ -49,6 +49,11 @@ class FracSpec(E.SystemSpec):
         return comps, fixed
 
 
+def _is_pick(ev, n):
+    """the component pick is a choice over range(n_components) (the first choice of an iteration)"""
+    return ev["a"] == list(range(len(ev["a"]))) and len(ev["a"]) in (n, n - 1, n + 1)
+
+
 def run(tier):
     g = common.import_repo()
     X.Tap.install(g)
@@ -116,8 +121,51 @@ def run(tier):
                 sd = (f * (1 - f) / n) ** 0.5
                 if abs(share - f) > 6.5 * sd + 1e-9:      # false-alarm bound below 1e-9 per comparison
                     v.violation(f"C14:mass-share@{spec.name}", f"system {text}: component {m.text()} has mass share {share:.4f} over {n} molecules, declared {f}", {"system": text})
+    # ---- systems with polymer components (mean member mass only known by sampling): the pick vector must be the declared fractions
+    #      (known finding) or, within sampling error, the mass-share law - never anything else
+    from .gast import S
+    pe = lambda tgt: M("C[>]", S("[>]", ["[<]CC[>]"], [], "[<]", ("gauss", [tgt, 10])), "[<]C")
+    poly_systems = [
+        E.SystemSpec([(pe(150), 70), (pe(600), 10), (M("OCCO"), 20)], 3000.0, "two-grades-of-one-polymer"),
+        E.SystemSpec([(M("C1CCOC1"), 90), (pe(300), 10)], 2000.0, "solvent-polymer"),
+    ]
+    n_poly = 0
+    for spec0 in poly_systems:
+        spec = FracSpec(spec0.comps, spec0.S, spec0.name)
+        text = spec.text()
+        sysobj = g.System(text)
+        fr = [float(Fraction(p)) for _, p in spec.comps]
+        declared = [x / sum(fr) for x in fr]
+        # mean member masses by sampling each component on its own
+        means = []
+        for m, _ in spec.comps:
+            mo = g.Molecule(m.text())
+            ws = [mo.generate(rng=np.random.default_rng(1000 + i)).weight for i in range(60)]
+            means.append(sum(ws) / len(ws))
+        share = [f / mm for f, mm in zip(fr, means)]
+        share = [x / sum(share) for x in share]
+        for mode, call in (("iterate", E.iterate_call), ("single", E.single_call)):
+            rng = X.RecordingRNG(7 + common.seed())
+            X.Tap.current = rng
+            try:
+                call(sysobj, rng)
+            except Exception:
+                pass
+            X.Tap.current = None
+            for ev in rng.events:
+                if ev["kind"] == "choice" and len(ev["a"]) <= len(fr) and max(ev["a"], default=99) < len(fr) and (len(ev["p"]) == len(fr) or ev["a"] == list(range(len(ev["a"])))) and ev["a"][:1] == [0] and len(ev["p"]) > 1 and _is_pick(ev, len(fr)):
+                    n_poly += 1
+                    p = [n / d if d > 0 else -1 for n, d in ev["p"]]
+                    if len(p) == len(fr) and all(abs(a - b) < 1e-9 for a, b in zip(p, declared)):
+                        v.violation(KNOWN_KEY, f"system {text} ({mode}): component pick with p={p} = declared mass fractions", {"system": text})
+                    elif len(p) == len(fr) and all(abs(a - b) <= 0.08 * b + 1e-3 for a, b in zip(p, share)):
+                        pass      # the mass-share law, within the sampling error of the mean member masses
+                    else:
+                        v.violation(f"C14:pick-law@{spec.name}", f"system {text} ({mode}): component pick a={ev['a']} p={p} is neither the declared fractions {declared} "
+                                                                 f"nor the mass-share law (about {[round(x, 4) for x in share]})", {"system": text})
+                    break
     v.coverage = {"states": tot_states, "transitions": tot_states, "traces_validated_against_impl": tot_paths, "tree_nodes_validated": tot_nodes,
-                  "systems": len(systems(tier)), "pick_events_with_declared_fraction_law": picks, "samples": samples}
+                  "systems": len(systems(tier)), "pick_events_with_declared_fraction_law": picks, "polymer_system_picks_checked": n_poly, "samples": samples}
     v.assumptions = ["exact decision for components of fixed molecule mass (mean member mass known exactly); the convergence clause itself is statistical and only backed by frequencies (thorough tier, equal-mass systems)",
                      "mass shares converge to the declared fractions iff the per-molecule pick probability is proportional to fraction / mean member mass"]
     return v.finish()
